@@ -55,6 +55,10 @@ def realise(d, rng, kind=None):
     npred_ = n if not d["lenMismatch"] else rng.choice(wrong)
     pred = [rng.randint(1, 12) / 4 for _ in range(npred_)]
     npred = len(pred)
+    if len(set(y) | set(pred)) < 2:
+        # all observations and predictions one and the same number: a Murphy diagram has no threshold range then (the library
+        # says so with a ValueError of its own) - not one of the constraints this property is about
+        pred[0] = pred[0] + 0.5
     out = {"y": y, "pred": pred}
     if d["hasFeature"]:
         m = npred + (rng.choice([1, -1]) if d["featLenMismatch"] else 0)
